@@ -10,7 +10,8 @@ LEVEL = 'exploration'
 RULE = ('case = rooted directed graph of container nodes (list, dict, tuple-holding-a-list) with ordered out-edges to '
         'nodes or int leaves, edges added after creation (so self-loops, 2- and 3-cycles through mixed kinds and diamonds '
         'exist), plus a second root; history = print g, print g, print an unrelated value, print the graph from the second '
-        'root, print g. Exhaustive: all graphs with <= 2 nodes (out-degree <= 2, leaf targets) and all 3-node graphs with '
+        'root, print g, print g with a printer returning a non-document inside every node (the call raises while the '
+        'containers are open), print g. Exhaustive: all graphs with <= 2 nodes (out-degree <= 2, leaf targets) and all 3-node graphs with '
         'out-degree <= 2; random: up to 8 nodes, out-degree <= 3. Oracle: a reference DFS with an explicit path stack '
         'builds the expected tree (child on the current path -> marker(type name, id); anything else expanded in full); '
         'the output with "<Recursion on T with id=N>" rewritten to a call must parse to exactly that tree; all prints of '
@@ -154,6 +155,41 @@ def oracle(case):
             texts.append(p.text)
     except RecursionError:
         return core.viol('recursion-error', 'printing a graph of %d nodes exhausted the interpreter stack' % len(objs))
+    # an aborted print in between: a printer returning a non-document makes pformat raise while the
+    # containers on the path are still being printed; afterwards the graph must print as before
+    from .. import faults
+    sinks = []
+    for o in objs:
+        s = o[0] if isinstance(o, tuple) else o
+        if not any(s is x for x in sinks):
+            sinks.append(s)
+    bads = []
+    for s in sinks:
+        bad = faults.FNode('abort', [])
+        bad.badret = (5,)
+        bads.append(bad)
+        if isinstance(s, dict):
+            s['__abort__'] = bad
+        else:
+            s.append(bad)
+    try:
+        aborted = values.pp(g, width=w)
+    except RecursionError:
+        aborted = None
+    finally:
+        for s in sinks:
+            if isinstance(s, dict):
+                del s['__abort__']
+            else:
+                s.pop()
+    if aborted is not None and not isinstance(aborted.exc, ValueError):
+        return core.viol('bad-return-not-reported', repr(aborted.exc or aborted.text)[:300])
+    try:
+        after = values.pp(g, width=w)
+    except RecursionError:
+        return core.viol('recursion-error', 'after an aborted print')
+    if after.text != texts[0]:
+        return core.viol('residue-after-aborted-print', 'before\n%s\nafter a print that raised\n%s' % (texts[0][:400], (after.text or repr(after.exc))[:400]))
     if texts[0] != texts[1] or texts[0] != texts[4]:
         return core.viol('reprint-differs', 'first\n%s\nlater\n%s' % (texts[0][:400], (texts[1] if texts[0] != texts[1] else texts[4])[:400]))
     if texts[2] != '[1, 2]':
